@@ -20,7 +20,9 @@ def raster_event(rng):
     h, w = rng.randint(4, 12), rng.randint(4, 12)
     deep = rng.random() < 0.4
     mx = 65535 if deep else 255
-    img = np.array([[rng.choice([0, mx, rng.randint(0, mx)]) for _ in range(w)] for _ in range(h)], dtype=np.uint16 if deep else np.uint8)
+    # value ranges (added after seed C19c: a 16-bit image whose brightest pixel is <= 255): full, dark, bright, narrow band
+    lo, hi = rng.choice([(0, mx), (0, mx), (0, min(mx, 255)), (0, 40), (mx - 200, mx), (mx // 2, mx // 2 + 3)])
+    img = np.array([[rng.choice([lo, hi, rng.randint(lo, hi)]) for _ in range(w)] for _ in range(h)], dtype=np.uint16 if deep else np.uint8)
     if rng.random() < 0.3:      # through a real image file, as a user would
         import cv2
         path = os.path.join(tempfile.mkdtemp(dir=workdir()), "map.png")
